@@ -86,6 +86,17 @@ def run_case(case: Dict[str, Any], ctx) -> None:
     if B.ref_nonfinite or C.ref_nonfinite or B.u_exc or C.u_exc or B.ref_exc or C.ref_exc:
         ctx.skip("second draw not comparable")
         return
+    if cfg.get("_mags") and dtype in (torch.bfloat16, torch.float16):
+        # (as in C01) the low-precision PyTorch reference must first agree with its own float64 evaluation
+        from ..optable import reference_noise
+        try:
+            worst = max(max(reference_noise(op, cfg, dtype, sd, su).values()) for sd, su in ((sA, uA), (sB, uB), (sA, uB)))
+        except Exception:
+            worst = 1.0
+        if not worst <= 0.05:
+            ctx.count("excluded:pytorch-low-precision-reference-off-its-float64-value")
+            ctx.skip("PyTorch's own low-precision result is off its float64 value")
+            return
     ctx.count("spy:scale-calls", len(A.scale_trace))
     ctx.count("sanitizer:upstream-gradients-checked", 3)
     if cfg.get("_layout"):
